@@ -24,37 +24,48 @@ def matrix_is_complex(A):
         return np.iscomplexobj(A)
 
 
+def _abs_tol(A):
+    """ Absolute tolerance for the matrix checks: the default of numpy (1e-8), reduced for matrices of which the largest
+    magnitude is smaller than one, as all their entries would otherwise be regarded as (close to) zero """
+    if matrix_is_sparse(A):
+        data = getattr(A, 'data', None)
+        amax = np.max(np.abs(data)) if data is not None and np.size(data) > 0 else 0.0
+    else:
+        amax = np.max(np.abs(A)) if np.size(A) > 0 else 0.0
+    return 1e-8 * min(1.0, amax)
+
+
 def matrix_is_diagonal(A):
     """ Checks if the matrix is diagonal"""
     if matrix_is_sparse(A):
         if isinstance(A, sps.dia_matrix):
             return len(A.offsets) == 1 and A.offsets[0] == 0
         else:
-            return np.allclose((A - sps.spdiags(A.diagonal(), 0, *A.shape)).data, 0.0)
+            return np.allclose((A - sps.spdiags(A.diagonal(), 0, *A.shape)).data, 0.0, atol=_abs_tol(A))
     elif is_cvxopt_spmatrix(A):
         return max(abs(A.I - A.J)) == 0
     else:
-        return np.allclose(A, np.diag(np.diag(A)))
+        return np.allclose(A, np.diag(np.diag(A)), atol=_abs_tol(A))
 
 
 def matrix_is_symmetric(A):
     """ Checks whether a matrix is numerically symmetric """
     if matrix_is_sparse(A):
-        return np.allclose((A-A.T).data, 0)
+        return np.allclose((A-A.T).data, 0, atol=_abs_tol(A))
     elif is_cvxopt_spmatrix(A):
         return np.isclose(max(abs(A-A.T)), 0.0)
     else:
-        return np.allclose(A, A.T)
+        return np.allclose(A, A.T, atol=_abs_tol(A))
 
 
 def matrix_is_hermitian(A):
     """ Checks whether a matrix is numerically Hermitian """
     if matrix_is_complex(A):
         if matrix_is_sparse(A):
-            return np.allclose((A-A.T.conj()).data, 0)
+            return np.allclose((A-A.T.conj()).data, 0, atol=_abs_tol(A))
         elif is_cvxopt_spmatrix(A):
             return np.isclose(max(abs(A-A.ctrans())), 0.0)
         else:
-            return np.allclose(A, A.T.conj())
+            return np.allclose(A, A.T.conj(), atol=_abs_tol(A))
     else:
         return matrix_is_symmetric(A)
